@@ -23,6 +23,25 @@ static FILE *out;
 
 extern void pxgstrf_relax_snode(const int_t, superlumt_options_t *, pxgstrf_relax_t *);
 
+#ifdef SLU_MT_VERIF
+/* Timing only (observation hook of the tree): a legal schedule is made likely.
+ * The thread that takes the LAST panel becomes slow (15 ms per column); the threads with pnum >= 2 enter
+ * p?gstrf_thread only after some other thread has left its main loop (and has run p?gstrf_WorkFree). */
+static volatile long dl_last_holder = -1, dl_ended = 0;
+static void delay_cb(int ev, long pnum, long a, long b, long c, const void *p)
+{
+    const pxgstrf_shared_t *sh = (const pxgstrf_shared_t *) p;
+    if (ev == SLU_VEV_SCHED) { if (a != EMPTY && sh && sh->tasks_remain == 0 && dl_last_holder < 0) dl_last_holder = pnum; }
+    else if (ev == SLU_VEV_RELEASE) { if (pnum == dl_last_holder) usleep(15000); }
+    else if (ev == SLU_VEV_THREAD_END) { if (pnum != dl_last_holder) dl_ended = 1; }
+    else if (ev == SLU_VEV_THREAD_BEGIN && pnum >= 2) {
+        int i;
+        for (i = 0; i < 300 && !dl_ended; ++i) usleep(1000);
+        usleep(3000);          /* THREAD_END is raised just before p?gstrf_WorkFree */
+    }
+}
+#endif
+
 static int in_buf(void *p, char *w, long lw) { return p && (char *) p >= w && (char *) p < w + lw; }
 
 static void run_case(vcase_t *c)
@@ -129,6 +148,10 @@ static void run_case(vcase_t *c)
     }
     mu.for_lu = mu.total_needed = -1; mu.expansions = -1;
 
+#ifdef SLU_MT_VERIF
+    dl_last_holder = -1; dl_ended = 0;
+    slu_mt_verif_cb = c->delay ? delay_cb : 0;
+#endif
 #ifdef VERIF_FAULT
     ledger_trace_init();
     start_count = verif_alloc_count;
